@@ -8,6 +8,7 @@ import PsModel.Iterator
 import PsModel.Primality
 import PsModel.FloatOracle
 import PsModel.SieveTable
+import PsModel.Erat
 
 open Ps
 
@@ -79,6 +80,68 @@ partial def iterLoop (h : IO.FS.Stream) (st : Iter) : IO Unit := do
   IO.println s!"{op} => {out}"
   iterLoop h st'
 
+/-- EratCfg with the double-precision products evaluated as in C++ -/
+def floatCfg (l1 : Nat) : EratCfg :=
+  { l1CacheSize := l1
+    mulSieveSize := fun x => (toF x * 2.0).toUInt64.toNat
+    mulSmall := fun x => (toF x * 0.2).toUInt64.toNat
+    mulMedium := fun x => (toF x * 3.0).toUInt64.toNat }
+
+/-- (count, sum mod 2^64) of the primes in [lo, hi] -/
+def countSum (lo hi : Nat) : Nat × Nat := Id.run do
+  if lo > hi then return (0, 0)
+  let mut c := 0
+  let mut s := 0
+  if hi - lo ≤ 60000000 ∧ hi ≤ 200000000000000 then
+    let t := segmentTable lo hi
+    for j in [0 : hi + 1 - lo] do
+      if t.get! j == 1 then
+        c := c + 1
+        s := (s + lo + j) % U64
+  else
+    for j in [0 : hi + 1 - lo] do
+      if isPrimeMR (lo + j) then
+        c := c + 1
+        s := (s + lo + j) % U64
+  return (c, s)
+
+/-- one `seg <start> <stop> <kib> l1=<bytes>` line: run the geometry model over all segments -/
+def segLine (op : String) : String :=
+  match (op.splitOn " ").filter (· ≠ "") with
+  | ["seg", a, b, k, l1] =>
+    match a.toNat?, b.toNat?, k.toNat?, kv l1 with
+    | some start, some stop, some kib, some l1 => Id.run do
+      let cfg := floatCfg l1
+      let mut g := pgInitErat cfg start stop kib
+      let small := g.maxEratSmall
+      let medium := g.maxEratMedium
+      let mut nseg := 0
+      let mut total := 0
+      let mut sum := 0
+      let mut geo := ""
+      for _ in [0 : 100000000] do
+        if !g.hasNextSegment then break
+        let (low, bytes, g') := g.sieveSegment
+        let r := segRange (max start 721) stop low bytes
+        let cs := countSum r.1 r.2
+        total := total + cs.1
+        sum := (sum + cs.2) % U64
+        if nseg < 4 then
+          geo := geo ++ s!" [low={low} bytes={bytes} nlow={g'.segmentLow} nhigh={g'.segmentHigh}]"
+        nseg := nseg + 1
+        g := g'
+      return s!"segs={nseg} total={total} sum={sum} small={small} medium={medium} content=ok{geo}"
+    | _, _, _, _ => "bad-op"
+  | _ => "bad-op"
+
+partial def segLoop (h : IO.FS.Stream) : IO Unit := do
+  let line ← h.getLine
+  if line.isEmpty then return ()
+  let line := line.trimAscii.toString
+  let op := (line.splitOn " => ").headD ""
+  IO.println s!"{op} => {segLine op}"
+  segLoop h
+
 def main (args : List String) : IO UInt32 := do
   match args with
   | [stream, file] =>
@@ -86,5 +149,6 @@ def main (args : List String) : IO UInt32 := do
     let s := IO.FS.Stream.ofHandle h
     match stream with
     | "iter" => iterLoop s (Iter.mk' 0 umax); return 0
+    | "segment" => segLoop s; return 0
     | _ => IO.eprintln s!"unknown stream {stream}"; return 2
   | _ => IO.eprintln "usage: psv_model <stream> <tracefile>"; return 2
